@@ -6,20 +6,48 @@ The ledger-level laws of `Props/C04.lean` quantify over arbitrary operation hist
 pool. Here: in every state a run of the simulator model `Model/Sim.lean` reaches at the head of
 the `simulate()` loop and when it ends normally (any world satisfying the decidable predicate
 `lwf0`, any decision tape, any draw tape, any fuel), for every worker of every pool the ledger
-entries keyed by tasks are exactly the residents placed with a non-batch strategy, and every
-profile entry belongs to a profile that is loaded or loading (`Lemmas/SimLedgerRun*.lean`).
+entries keyed by tasks are exactly the residents placed with a non-batch strategy, the entries
+keyed by batch placeholders are exactly the placeholders of the live batches (whose members are
+exactly the residents placed with the batch's strategy), and every profile entry belongs to a
+profile that is loaded or loading (`Lemmas/SimLedgerRun*.lean`).
 -/
 namespace ErdosVerif.C04
 open ErdosVerif.Model ErdosVerif.Model.Sim
 
-/-- The set equation for one worker (task keys), and the inclusion for profile keys. -/
+/-- The set equations for one worker (task keys, batch placeholders and batch membership), and
+the inclusion for profile keys. -/
 def HeldIffResident (w : Worker) : Prop :=
   (∀ t, Comp.task t ∈ AList.keys w.res.allocs ↔ ∃ s, AList.get? w.placed t = some s ∧ s.isBatch = false) ∧
   (∀ p, Comp.profile p ∈ AList.keys w.res.allocs → p ∈ AList.keys w.availProf ∨ p ∈ AList.keys w.pendProf) ∧
-  (AList.keys w.res.allocs).Nodup ∧ (AList.keys w.placed).Nodup
+  (AList.keys w.res.allocs).Nodup ∧ (AList.keys w.placed).Nodup ∧
+  (∀ g, Comp.batch g ∈ AList.keys w.res.allocs ↔
+    ∃ sid, AList.get? w.batchTask sid = some (.batch g) ∧ sid ∈ AList.keys w.batches) ∧
+  (∀ t s, AList.get? w.placed t = some s → s.isBatch = true → ∃ ms, AList.get? w.batches s.sid = some ms ∧ t ∈ ms) ∧
+  (∀ sid ms, AList.get? w.batches sid = some ms → ms.Nodup ∧ ms ≠ [] ∧
+    ∀ t ∈ ms, ∃ s, AList.get? w.placed t = some s ∧ s.isBatch = true ∧ s.sid = sid) ∧
+  (∀ sid sid' c, AList.get? w.batchTask sid = some c → AList.get? w.batchTask sid' = some c → sid = sid')
 
-theorem heldIffResident_of_tok (w : Worker) (h : w.TOK) : HeldIffResident w := by
-  refine ⟨?_, ?_, h.anodup, h.pnodup⟩
+theorem heldIffResident_of_tok (w : Worker) (hl : w.LOK) : HeldIffResident w := by
+  obtain ⟨h, hb⟩ := hl
+  refine ⟨?_, ?_, h.anodup, h.pnodup, ?_, hb.memBatch, hb.batchMem, hb.btInj⟩
+  rotate_left 2
+  · intro g
+    constructor
+    · intro hm
+      have := AList.get?_isSome_of_mem _ _ hm
+      cases hg : AList.get? w.res.allocs (.batch g) with
+      | none => simp [hg] at this
+      | some l =>
+        obtain ⟨sid, h1, h2⟩ := hb.heldBatch g l hg
+        exact ⟨sid, h1, (AList.lr_has_iff_mem _ _).mp h2⟩
+    · rintro ⟨sid, h1, h2⟩
+      have := AList.get?_isSome_of_mem _ _ h2
+      cases hms : AList.get? w.batches sid with
+      | none => simp [hms] at this
+      | some ms =>
+        obtain ⟨g', l, s0, h3, h4, _⟩ := hb.batchHeld sid ms hms
+        rw [h1] at h3; cases h3
+        exact AList.mem_keys_of_get?_some _ _ _ h4
   · intro t
     constructor
     · intro hm
@@ -60,16 +88,29 @@ theorem held_iff_resident_at_loop_head (s0 : SimS) (k : Nat) (h : lwf0 s0 = true
     | error e => intro hW; exact hW
 
 /-- Non-vacuity: a worker with one resident task satisfies the set equation, a worker whose
-ledger forgot the task does not. -/
+ledger forgot the task does not; a worker with a two-member batch (one placeholder entry). -/
 example :
     let st : Strategy := ⟨0, false, 1, 5, [(⟨"GPU", none⟩, 1)]⟩
     let w1 := ((Worker.ofVec [(⟨"GPU", some 1⟩, 1)]).placeTask 7 st).1
     HeldIffResident w1 ∧ ¬ HeldIffResident { w1 with res := { w1.res with allocs := [] } } := by
   intro st w1
   refine ⟨?_, ?_⟩
-  · exact heldIffResident_of_tok _ (Worker.lr_placeTask _ 7 _ (Worker.TOK.ofVec _ (by decide)) (by decide) (by decide))
+  · exact heldIffResident_of_tok _ (Worker.lk_placeTask _ 7 _ (Worker.LOK.ofVec _ (by decide)) (by decide) (by decide))
   · intro h
     have : Comp.task 7 ∈ AList.keys ([] : AList Comp (List (Res × Nat))) := (h.1 7).mpr ⟨st, by decide, rfl⟩
     cases this
+
+/-- Non-vacuity (batches): two members of one batch strategy on a one-GPU worker — one live batch
+with both members, one placeholder entry in the ledger. -/
+example :
+    let bs : Strategy := ⟨3, true, 2, 5, [(⟨"GPU", none⟩, 1)]⟩
+    let w0 := Worker.ofVec [(⟨"GPU", some 1⟩, 1)]
+    let w1 := (w0.placeTask 7 bs).1
+    let w2 := (w1.placeTask 8 bs).1
+    HeldIffResident w2 ∧ AList.keys w2.res.allocs = [.batch 0] ∧ AList.get? w2.batches 3 = some [7, 8] := by
+  intro bs w0 w1 w2
+  have h1 : w1.LOK := Worker.lk_placeTask _ 7 _ (Worker.LOK.ofVec _ (by decide)) (by decide) (by decide)
+  have h2 : w2.LOK := Worker.lk_placeTask _ 8 _ h1 (by decide) (by decide)
+  exact ⟨heldIffResident_of_tok _ h2, by decide, by decide⟩
 
 end ErdosVerif.C04
